@@ -52,8 +52,8 @@ Example C08_example :
   let p := {| p_src := "world"; p_dst := "bob"; p_asset := "USD"; p_amt := 5 |} in
   let h := [(1, {| o_in := ICreate [p] None "" [("k", "v")] [] false; o_ik := "a"; o_dry := false |});
             (2, {| o_in := ISetMeta (TTx 1) [("k", "w")]; o_ik := ""; o_dry := false |});
-            (3, {| o_in := IRevert 1 true false; o_ik := ""; o_dry := true |});
-            (4, {| o_in := IRevert 1 true false; o_ik := ""; o_dry := false |});
+            (3, {| o_in := IRevert 1 true false []; o_ik := ""; o_dry := true |});
+            (4, {| o_in := IRevert 1 true false []; o_ik := ""; o_dry := false |});
             (5, {| o_in := ICreate [p] None "" [("k", "v")] [] false; o_ik := "a"; o_dry := false |})] in
   map l_id (s_logs (run f h)) = [1; 2; 4] /\ map v_reverted (replay (s_logs (run f h))) = [true; false]
   /\ map v_meta (replay (s_logs (run f h))) = [[("k", "w")]; [("com.formance.spec/state/reverts", "1")]].
